@@ -341,7 +341,7 @@ impl Session {
                 }
             }
             Op::Merge { h, left, right } => {
-                let (n, cap) = (self.n, self.cap);
+                let (n, cap) = (self.n, crate::ops::h_capacity(self.cap, h));
                 let built = guarded(|| {
                     let mut hg = new_graph(n, cap);
                     for hop in h {
@@ -642,7 +642,7 @@ pub fn exec_raw(
             Err(e) => Ret::Res(Err(e)),
         },
         Op::Merge { h, left, right } => {
-            let cap = g.snapshot().capacity;
+            let cap = crate::ops::h_capacity(g.snapshot().capacity, h);
             let mut hg = new_graph(n, cap);
             for hop in h {
                 match hop {
